@@ -2,6 +2,7 @@
 package c04
 
 import (
+	"bytes"
 	"crypto/x509"
 	"fmt"
 	"testing"
@@ -144,6 +145,12 @@ func verdict(blob []byte, cert *x509.Certificate, primer *x509.Certificate) (par
 
 func checkOne(blob []byte, cert *x509.Certificate, class string, primer ...*x509.Certificate) (bool, error) {
 	hx.Eval()
+	orig := append([]byte{}, blob...)
+	defer func() {
+		if !bytes.Equal(orig, blob) {
+			panic("C04 harness: verification modified the caller's signature bytes")
+		}
+	}()
 	var pr *x509.Certificate
 	if len(primer) > 0 {
 		pr = primer[0]
